@@ -20,4 +20,4 @@ def run(rep, tier, seed):
                        'follow-up workload (writes, delete, flush, clean reopen) must take precedence and persist')
 
 def replay(rep, path):
-    print(open(path).read()[:3000]); return 1
+    return k3check.replay_crash(rep, path)
